@@ -14,7 +14,9 @@ Inductive ev :=
 | EStart (l : N)                          (* SubmitToLog(l) entered *)
 | ERet (l : N) (sct : bool) (ctxerr : bool) (* SubmitToLog(l) returned; ctxerr: because its context ended *)
 | ECancel                                 (* the caller's context ended *)
-| EDone.                                  (* GetSCTs returned *)
+| EDone                                   (* GetSCTs returned *)
+| EHang.                                  (* last event: GetSCTs has NOT returned and never will by itself - every
+                                             goroutine of the call is blocked and no timer is left (virtual time) *)
 
 Inductive case :=
 (* ll.SelectByStatus(usable).Compatible(cert, root, roots) then policy.LogsByGroup:
@@ -59,7 +61,8 @@ Definition model_groups pol ll roots root na nbd nad : option cfg :=
 (* ---- replay of an observed linearisation through the state machine ---- *)
 Record rstate := mkR {
   r_st : sst; r_inflight : list N; r_started : list N; r_ctx : bool;
-  r_done : option (sst * bool); r_bad : list N   (* 1 dup/unawaited start, 2 return without call, 3 unexplained ctx error, 4 setResult panic *)
+  r_done : option (sst * bool); r_bad : list N;  (* 1 dup/unawaited start, 2 return without call, 3 unexplained ctx error, 4 setResult panic *)
+  r_hung : bool                                  (* the observation ended with EHang instead of EDone *)
 }.
 
 Definition mk_cfg (groups : list (N * list N * Z * bool * list N)) : cfg :=
@@ -73,24 +76,42 @@ Definition rstep (c : cfg) (r : rstate) (e : ev) : rstate :=
       let q := request c (r_st r) l in
       let in_sess := existsb (fun gr => memN l (g_session gr)) c in
       mkR (fst q) (l :: r_inflight r) (l :: r_started r) (r_ctx r) (r_done r)
-          (if snd q && in_sess then r_bad r else 1%N :: r_bad r)
+          (if snd q && in_sess then r_bad r else 1%N :: r_bad r) (r_hung r)
   | ERet l sct ctxerr =>
       if memN l (r_inflight r) then
         let explained := negb ctxerr || cancelled (r_st r) l || r_ctx r in
         match set_result c (r_st r) l sct with
         | Some st' => mkR st' (remove_one l (r_inflight r)) (r_started r) (r_ctx r) (r_done r)
-                          (if explained then r_bad r else 3%N :: r_bad r)
-        | None => mkR (r_st r) (r_inflight r) (r_started r) (r_ctx r) (r_done r) (4%N :: r_bad r)
+                          (if explained then r_bad r else 3%N :: r_bad r) (r_hung r)
+        | None => mkR (r_st r) (r_inflight r) (r_started r) (r_ctx r) (r_done r) (4%N :: r_bad r) (r_hung r)
         end
-      else mkR (r_st r) (r_inflight r) (r_started r) (r_ctx r) (r_done r) (2%N :: r_bad r)
-  | ECancel => mkR (r_st r) (r_inflight r) (r_started r) true (r_done r) (r_bad r)
-  | EDone => mkR (r_st r) (r_inflight r) (r_started r) (r_ctx r) (Some (r_st r, r_ctx r)) (r_bad r)
+      else mkR (r_st r) (r_inflight r) (r_started r) (r_ctx r) (r_done r) (2%N :: r_bad r) (r_hung r)
+  | ECancel => mkR (r_st r) (r_inflight r) (r_started r) true (r_done r) (r_bad r) (r_hung r)
+  | EDone => mkR (r_st r) (r_inflight r) (r_started r) (r_ctx r) (Some (r_st r, r_ctx r)) (r_bad r) (r_hung r)
+  | EHang => mkR (r_st r) (r_inflight r) (r_started r) (r_ctx r) (Some (r_st r, r_ctx r)) (r_bad r) true
   end.
 
 Definition replay (c : cfg) (evs : list ev) : rstate :=
-  fold_left (rstep c) evs (mkR (init_sst c) [] [] false None []).
+  fold_left (rstep c) evs (mkR (init_sst c) [] [] false None [] false).
 
 Definition all_complete (c : cfg) (st : sst) : bool := forallb (fun g => group_complete c st g) (names c).
+
+(* Every race that has not ended by itself is waiting for a log of its session to be finished
+   (requested and answered, or known not to be requested): an incomplete group none of whose
+   session logs is unfinished has had its race return. *)
+Definition races_over (c : cfg) (st : sst) : bool :=
+  forallb (fun gr => group_complete c st (g_name gr) || forallb (fun l => finished st l) (g_session gr)) c.
+
+(* An observed hang (quiescent: nothing in the call can move, the caller's context has not
+   ended) is what Props/C17.always_terminates allows only with a SubmitToLog call in flight
+   ([waiting]): some log of some session has been started and its outcome is not final in
+   the model's state.  With the caller's context ended, or with every started call returned
+   (each return goes through the model's set_result, which finishes the log whatever the
+   answer was), the model has a step left, i.e. the code must have returned. *)
+Definition hang_explained (c : cfg) (r : rstate) (st : sst) (ctx : bool) : bool :=
+  negb ctx &&
+  match r_inflight r with [] => false | _ => true end &&
+  existsb (fun gr => existsb (fun l => memN l (r_inflight r) && negb (finished st l)) (g_session gr)) c.
 
 (* what the (fixed) code must have returned given this linearisation *)
 Definition run_ok (c : cfg) (evs : list ev) (scts : list N) (ok : bool) (reqs : list (N * N)) : bool :=
@@ -99,12 +120,15 @@ Definition run_ok (c : cfg) (evs : list ev) (scts : list N) (ok : bool) (reqs : 
   | None => false
   | Some (st, ctx) =>
       match r_bad r with [] => true | _ => false end &&
-      same_set scts (collect c st) && Nat.eqb (length scts) (length (collect c st)) &&
-      (if ctx then implb ok (all_complete c st)
-       else Bool.eqb ok (all_complete c st) &&
-            (* an incomplete group has had every log of its session requested and answered *)
-            forallb (fun gr => group_complete c st (g_name gr) ||
-                               forallb (fun l => finished st l) (g_session gr)) c) &&
+      (if r_hung r then
+         hang_explained c r st ctx && match scts with [] => true | _ => false end && negb ok &&
+         match evs with [] => false | _ => match last evs EDone with EHang => true | _ => false end end
+       else
+         same_set scts (collect c st) && Nat.eqb (length scts) (length (collect c st)) &&
+         (if ctx then implb ok (all_complete c st)
+          else Bool.eqb ok (all_complete c st) &&
+               (* an incomplete group has had every log of its session requested and answered *)
+               races_over c st)) &&
       forallb (fun q => N.eqb (snd q) (if memN (fst q) (r_started r) then 1 else 0)%N) reqs
   end.
 
